@@ -352,6 +352,18 @@ impl Model {
         }
     }
 
+    /// Signature of a failure: inside a defect family the family alone (wrong log, panic, hang and
+    /// crash are manifestations of the same broken index maintenance); in the core region the
+    /// context plus the failure class.
+    fn sig(&self, class: &str) -> String {
+        let f = self.family();
+        if f.starts_with("family-") {
+            f
+        } else {
+            format!("{f}:{class}")
+        }
+    }
+
     fn ctx(&self) -> String {
         let base =if self.retract_of_pending { "retract-of-pending" } else if self.retract_under_cursor { "retract-under-cursor" } else if self.assert_under_cursor { "assert-under-cursor" } else { "no-open-cursor" };
         let mut s = base.to_string();
@@ -425,7 +437,7 @@ pub fn check(env: &mut Env, steps: &Vec<Step>) -> Verdict {
     // a history of <= 60 steps needs a few thousand inferences; 3 million is > 100x that
     let o = env.s.ask_lim(&format!("c09_run({text}, Log)"), "Log", 3_000_000);
     if matches!(o, Outcome::Limit) {
-        return Verdict::fail(format!("{}:hang", m.family()), format!("c09_run({text}, Log) exceeded 3000000 inferences (expected log {})", expected.text()));
+        return Verdict::fail(m.sig("hang"), format!("c09_run({text}, Log) exceeded 3000000 inferences (expected log {})", expected.text()));
     }
     let fam = m.family();
     let mut classes = vec![fam.as_str()];
@@ -440,7 +452,7 @@ pub fn check(env: &mut Env, steps: &Vec<Step>) -> Verdict {
     }
     match &o {
         Outcome::Sols(v) if v.len() == 1 && v[0].eq_struct(&expected) => Verdict::pass(m.assert_under_cursor || m.retract_under_cursor, &classes),
-        Outcome::Panic(p) => Verdict::fail(format!("{}:panic", m.family()), format!("c09_run({text}) panicked: {p}")),
+        Outcome::Panic(p) => Verdict::fail(m.sig("panic"), format!("c09_run({text}) panicked: {p}")),
         Outcome::Harness(h) => Verdict::Discard(format!("harness:{}", h.chars().take(40).collect::<String>())),
         other => {
             // classify: the first differing log entry
@@ -451,7 +463,7 @@ pub fn check(env: &mut Env, steps: &Vec<Step>) -> Verdict {
                 },
                 _ => vec![],
             };
-            let mut sig = format!("{}:wrong-log", m.family());
+            let mut sig = m.sig("wrong-log");
             for (i, e) in m.log.iter().enumerate() {
                 let en = e.norm();
                 match got.get(i) {
@@ -467,7 +479,7 @@ pub fn check(env: &mut Env, steps: &Vec<Step>) -> Verdict {
                             None => "missing".into(),
                         };
                         let _ = (&ename, &gname);
-                        sig = format!("{}:wrong-log", m.family());
+                        sig = m.sig("wrong-log");
                         break;
                     }
                 }
@@ -506,6 +518,6 @@ impl Prop for C09 {
         let Ok(steps) = serde_json::from_value::<Vec<Step>>(case.clone()) else { return base.to_string() };
         let mut m = Model { db: vec![], log: vec![], ids: Ids { next_clause: 0, next_cursor: 0 }, ambiguous: false, assert_under_cursor: false, retract_under_cursor: false, retract_of_pending: false, open_snapshots: vec![], open_kinds: vec![], kinds_mask: 0, used_asserta: false, used_var_key: false };
         m.run(&steps);
-        format!("{}:{}", m.family(), if base == "hang" { "hang" } else { "crash" })
+        m.sig(if base == "hang" { "hang" } else { "crash" })
     }
 }
